@@ -1201,7 +1201,14 @@ pub fn check_c20(case: &Case, h: &History, alts: &[History]) -> Vec<Violation> {
                 let want = g.idx_line[s.idx] as u64;
                 let first = &sessions[0];
                 let mut cited = None;
-                for text in runloop_lines(&s.events[..first.from.min(s.events.len())]).iter() {
+                // everything the driver said before the first command was read at this prompt
+                let _ = first;
+                let first_read = s
+                    .events
+                    .iter()
+                    .position(|e| matches!(e, Event::Line { who: Who::Prompt, .. }))
+                    .unwrap_or(s.events.len());
+                for text in runloop_lines(&s.events[..first_read]).iter() {
                     if let Some(c) = cited_line(text) {
                         cited = Some((c, text.clone()));
                         break;
